@@ -272,7 +272,7 @@ func c20Run(tier string, seed int64, idx int) *core.Result {
 	case "call-on-failed-connection":
 		end.FailRead()
 		end.Discard()
-		settle(tier, func() bool { return goat.VerifClientReadErr(cc) != nil })
+		settle(tier, func() bool { return readErrSet(cc) })
 	}
 	var callErr error
 	var reply []byte
